@@ -85,7 +85,7 @@ fn hm<C: Suite>(m: &RS) -> Vec<u8> {
 fn one<C: Suite>(ctx: &mut Ctx, g: u64, ename: &str, m: &RS, _rep: usize) {
     let mut rng = ctx.rng(g);
     let n = C::NAME;
-    let k = gen::random_scalar(&mut rng);
+    let k = gen::key_for(g, &mut rng); // every fourth case: an edge scalar
     let sk = sk_from_rs::<C>(&k);
     let pk = sk.public_key();
     let msk = sk_from_rs::<C>(m);
@@ -235,7 +235,7 @@ fn from_ref<C: Suite>(p: &RElGamalProof<C::R>) -> ElGamalProof<C> {
 fn sums<C: Suite>(ctx: &mut Ctx, g: u64, k: usize, rep: usize) {
     let mut rng = ctx.rng(g);
     let n = C::NAME;
-    let key = gen::random_scalar(&mut rng);
+    let key = gen::key_for(g, &mut rng); // every fourth case: an edge scalar
     let sk = sk_from_rs::<C>(&key);
     let pk = sk.public_key();
     let mut ms: Vec<RS> = (0..k).map(|_| gen::random_scalar(&mut rng)).collect();
@@ -298,7 +298,7 @@ fn sums<C: Suite>(ctx: &mut Ctx, g: u64, k: usize, rep: usize) {
 fn shares<C: Suite>(ctx: &mut Ctx, g: u64, t: usize, nn: usize) {
     let mut rng = ctx.rng(g);
     let n = C::NAME;
-    let key = gen::random_scalar(&mut rng);
+    let key = gen::key_for(g, &mut rng); // every fourth case: an edge scalar
     let sk = sk_from_rs::<C>(&key);
     let pk = sk.public_key();
     let m = gen::random_scalar(&mut rng);
